@@ -195,7 +195,7 @@ func scenFaults(rep *Report, tier string, seed int64) {
 	}
 	nb := 4
 	if tier == "thorough" {
-		nb = 18
+		nb = 10
 	}
 	for i := 0; i < nb && len(pool) > 0; i++ {
 		j := r.Intn(len(pool))
@@ -238,6 +238,8 @@ func scenFaults(rep *Report, tier string, seed int64) {
 		step := 1
 		if tier != "thorough" && nst > 40 {
 			step = nst / 40
+		} else if tier == "thorough" && nst > 240 {
+			step = nst / 240 // bounded: about ten minutes for the whole tier
 		}
 		for n := 1; n <= nst; n += step {
 			dump, msg, _, err := runFromSnapshot(ref, dir, h, upto, "", n)
